@@ -97,6 +97,7 @@ func c19Polarity(r *core.Report, f *core.Func) {
 	}
 	pg := p.Graph(pred)
 	filterObj := f.ParamByName("filter")
+	c19EmptyListRestrictsNothing(r, pred)
 	rets := pg.Returns()
 	if len(rets) == 0 {
 		r.Undecided(rule, pred.Key+"#returns", posP(r, pred.Pos()), "predicate has no return")
@@ -688,4 +689,111 @@ func sendsFreshEmptyResponse(fn *core.Func, n ast.Node) bool {
 		}
 	}
 	return res
+}
+
+// c19EmptyListRestrictsNothing (C19.R11): the predicate rejects a transaction "because none of the listed accounts is
+// present" only when the list has entries. The shape is: a bool flag that is set to true only inside a `range L` loop,
+// and a `return false` on the side where the flag is still false; that return must be unreachable when L is empty, i.e.
+// dominated by a test that len(L) is non-zero. (With an address index loaded the include test is skipped altogether, so
+// an any-of test that rejects on an empty list makes the streamed set depend on whether the index is loaded.)
+func c19EmptyListRestrictsNothing(r *core.Report, pred *core.Func) {
+	const rule = "C19.R11"
+	p := r.Prog
+	info := pred.Pkg.TypesInfo
+	g := p.Graph(pred)
+	n := 0
+	// flags: bool locals assigned true only inside a range loop over a slice variable
+	type flagInfo struct {
+		list types.Object
+		loop *ast.RangeStmt
+	}
+	flags := map[types.Object]flagInfo{}
+	ast.Inspect(pred.Body, func(m ast.Node) bool {
+		rs, ok := m.(*ast.RangeStmt)
+		if !ok {
+			return true
+		}
+		lo := core.ObjOf(info, rs.X)
+		if lo == nil {
+			return true
+		}
+		if _, isSlice := lo.Type().Underlying().(*types.Slice); !isSlice {
+			return true
+		}
+		ast.Inspect(rs.Body, func(k ast.Node) bool {
+			if as, ok := k.(*ast.AssignStmt); ok && len(as.Lhs) == 1 && len(as.Rhs) == 1 && as.Tok == token.ASSIGN {
+				if b, isB := boolConst(info, as.Rhs[0]); isB && b {
+					if fo := core.ObjOf(info, as.Lhs[0]); fo != nil {
+						flags[fo] = flagInfo{lo, rs}
+					}
+				}
+			}
+			return true
+		})
+		return true
+	})
+	for fo, fi := range flags {
+		// the flag must not be set to true anywhere else
+		elsewhere := false
+		ast.Inspect(pred.Body, func(k ast.Node) bool {
+			if as, ok := k.(*ast.AssignStmt); ok && len(as.Lhs) == 1 && len(as.Rhs) == 1 && core.ObjOf(info, as.Lhs[0]) == fo {
+				if b, isB := boolConst(info, as.Rhs[0]); isB && b && !(as.Pos() >= fi.loop.Body.Pos() && as.End() <= fi.loop.Body.End()) {
+					elsewhere = true
+				}
+			}
+			return true
+		})
+		if elsewhere {
+			continue
+		}
+		for _, rn := range g.Returns() {
+			res := returnResults(rn)
+			if len(res) != 1 {
+				continue
+			}
+			if v, isC := boolConst(info, res[0]); !isC || v {
+				continue
+			}
+			// a rejection on the side where the flag is false, after the loop
+			if rn.Ast.Pos() < fi.loop.End() {
+				continue
+			}
+			flagFalse := false
+			for _, fc := range g.FactsAt(rn) {
+				if fc.Tag == nil && !fc.Truth && core.ObjOf(info, core.Unparen(fc.Expr)) == fo {
+					flagFalse = true
+				}
+			}
+			if !flagFalse {
+				continue
+			}
+			n++
+			nonEmpty := false
+			for _, fc := range g.FactsAt(rn) {
+				be, ok := core.Unparen(fc.Expr).(*ast.BinaryExpr)
+				if !ok || fc.Tag != nil {
+					continue
+				}
+				c, isCall := core.Unparen(be.X).(*ast.CallExpr)
+				if !isCall || core.BuiltinName(info, c) != "len" || len(c.Args) != 1 || core.ObjOf(info, c.Args[0]) != fi.list {
+					continue
+				}
+				v, isC := core.ConstInt(info, be.Y)
+				if !isC {
+					continue
+				}
+				switch {
+				case be.Op == token.GTR && v == 0 && fc.Truth, be.Op == token.NEQ && v == 0 && fc.Truth, be.Op == token.EQL && v == 0 && !fc.Truth,
+					be.Op == token.GEQ && v == 1 && fc.Truth, be.Op == token.LSS && v == 1 && !fc.Truth, be.Op == token.LEQ && v == 0 && !fc.Truth:
+					nonEmpty = true
+				}
+			}
+			r.Check(nonEmpty, rule, fmt.Sprintf("%s#none-of-%s-present-rejects-only-for-a-non-empty-list", pred.Key, core.LocalToken(pred, fi.list)), pos(r, rn.Ast),
+				"the any-of test rejects only when the list has entries (an empty list places no restriction, as on the path with the address index)",
+				"a transaction is rejected because none of the accounts of "+fi.list.Name()+" is present even when that list is empty: a filter without such accounts streams nothing on this path, while the path with the address index skips the test - the streamed set depends on whether an address index is loaded")
+		}
+	}
+	if n == 0 {
+		r.Note("C19.R11: the predicate has no any-of list test of the flag-and-loop shape")
+	}
 }
